@@ -21,7 +21,7 @@ def plan_C12(ctx, rt):
     kinds = "messages,send,ownmsg,commit,race,proposal,own,welcome,create,txatomic"
     if ctx.get("replay"):
         rp = json.load(open(ctx["replay"])); stride = rp["stride"]; kinds = rp["kinds"]; seed = rp["seed"]
-    tr = os.path.join(rt.OUT, "traces", "C12_%s.ndjson" % tier)
+    tr = os.path.join(rt.OUT, "traces" if rt.REPO == "/repo" else "traces_alt_%d" % os.getpid(), "C12_%s.ndjson" % tier)
     os.makedirs(os.path.dirname(tr), exist_ok=True)
     rc, out = rt.sh("%s crash %s seed=%d stride=%d kinds=%s" % (rt.BIN, tr, seed, stride, kinds), timeout=7200,
                     env={"VERIF_DEV": ",".join(dev)})
